@@ -129,6 +129,18 @@ def text_layer(ctx, ncases):
     ]
     for text in texts:
         SqlCase([table], text, name='text').check(ctx)
+    # conditions without a column (the compiler folds them): NULL and every falsy value exclude every row
+    for cond in ("NULL", "0", "0.0", "''", "FALSE", "TRUE", "1", "'x'", "1 / 0 > 1", "5 % 0 = 1", "int('x') = 1", "'abc' ~ str(NULL)",
+                 "NOT NULL", "1 / 0 > 1 AND TRUE", "NULL OR FALSE", "coalesce(NULL, 0)", "coalesce(0, 1)", "coalesce('', 'x') = ''",
+                 "coalesce(FALSE, TRUE)"):
+        SqlCase([table], 'SELECT i, s FROM #t WHERE ' + cond, name='constant-where').check(ctx)
+        SqlCase([table], 'SELECT count(*) AS n FROM #t WHERE ' + cond, name='constant-where').check(ctx)
+    for value in (None, 0, False, True, ''):
+        SqlCase([table], 'SELECT i FROM #t WHERE %s', (value,), name='constant-where').check(ctx)
+        SqlCase([table], 'SELECT i FROM #t WHERE %(p)s', {'p': value}, name='constant-where').check(ctx)
+    # coalesce returns the first non-NULL value, falsy or not
+    SqlCase([table], "SELECT coalesce(i, 99), coalesce(d, 9.5), coalesce(s, 'x'), coalesce(b, TRUE), coalesce(i * 0, 7), coalesce(NULL, 0) FROM #t",
+            name='text').check(ctx)
 
 
 def run(ctx):
